@@ -133,6 +133,20 @@ let suite_fstream cap k hex =
   let extra = di_extra cap (nat_of_int k) it in
   nonempty (join (List.map res_str rs)) ^ "|" ^ nonempty (join (List.map ores_str extra))
 
+(* rt <cap> <hex>: both encoders, then every decoder front-end on the produced frame *)
+let suite_rt cap hex =
+  let p = bytes_of_hex hex in
+  let one (f : n list) =
+    let l = List.length f in
+    let ops = "x" ^ hex_of_bytes f ^ ",F" in
+    Printf.sprintf "%d[%s]{%s}(%s)" l (suite_dec cap ops) (suite_fdecode (hex_of_bytes f))
+      (suite_fstream cap 2 (hex_of_bytes f))
+  in
+  let fb = match encode_buf None p with Some l -> one l | None -> "oom" in
+  let (_, bytes), o = enc_collect_from (enc_limit p) (enc_new p) [] in
+  let fi = match o with ENone -> one bytes | _ -> "P" in
+  "b" ^ fb ^ ";i" ^ fi
+
 let suite_frame hex = hex_of_bytes (frame (bytes_of_hex hex))
 let suite_crc hex = dec_of_n (crc16 (bytes_of_hex hex))
 
@@ -143,6 +157,7 @@ let handle (line : string) : string =
   | [ "enci"; k; hex ] -> suite_enci (int_of_string k) hex
   | [ "fdecode"; hex ] -> suite_fdecode hex
   | [ "fstream"; cap; k; hex ] -> suite_fstream (cap_of_string cap) (int_of_string k) hex
+  | [ "rt"; cap; hex ] -> suite_rt (cap_of_string cap) hex
   | [ "frame"; hex ] -> suite_frame hex
   | [ "crc"; hex ] -> suite_crc hex
   | _ -> failwith ("unknown suite: " ^ line)
